@@ -40,9 +40,9 @@ def ms(t):
     return int(round(t * MS))
 
 
-async def _idle_case(loop, idle, gaps, partial_at):
+async def _idle_case(loop, idle, gaps, partial_at, sock=None, wait=1):
     """connect, login, then command lines separated by `gaps` (seconds); optionally bytes without newline"""
-    kw = {"idle_timeout": idle}
+    kw = {"idle_timeout": idle, "socket_timeout": sock, "wait_future_timeout": wait}
     wd = W.World(loop, S.USERS_ANON, server_kwargs=kw)
     await wd.start()
     out = {}
@@ -131,6 +131,22 @@ async def _wait_case(loop, wait, delta, verb):
         # the session continues after a 425
         c1, _, _, _ = await W.run_line(wd, raw, b"PWD") if not raw.eof else ([], 0, 0, 0)
         out["follow"] = c1
+        # ... and the transfer can simply be retried on the same listener
+        out["retry"] = None
+        if 425 in out["codes"] and not raw.eof:
+            if raw.data is not None:
+                try:
+                    raw.data[1].close()
+                except Exception:
+                    pass
+                raw.data = None
+            await loop.settle()
+            await W.run_line(wd, raw, b"EPSV")
+            await W.data_connect(wd, raw)
+            c2, _, out2, _ = await W.run_line(wd, raw, b"RETR f.txt")
+            out["retry"] = (c2, out2)
+            c3, _, _, _ = await W.run_line(wd, raw, b"PWD") if not raw.eof else ([], 0, 0, 0)
+            out["retry_pwd"] = c3
         raw.close()
         await loop.settle()
     finally:
@@ -202,6 +218,40 @@ async def _stall_case(loop, sock, direction, chunks_gaps):
     return out
 
 
+async def _ctrl_unread_case(loop, sock, idle, n_cmds):
+    """the peer keeps sending commands but stops READING the control connection: replies pile up until the
+    server's reply writer blocks; with socket_timeout set the session must be released that long after"""
+    kw = {"socket_timeout": sock, "idle_timeout": idle}
+    wd = W.World(loop, S.USERS_ANON, server_kwargs=kw)
+    await wd.start()
+    out = {}
+    try:
+        wd.set_tree(S.TREE)
+        raw = await wd.raw_client()
+        await W.run_line(wd, raw, b"USER bob")
+        sp = raw.transport.peer  # server -> client direction of the control connection
+        sp.HIGH = 64
+        sp.hold = True
+        t_block = loop.time()
+        for _ in range(n_cmds):
+            raw.send_raw(b"MLST f.txt\r\n")
+        await loop.settle()
+        out["blocked"] = sp.write_paused
+        await asyncio.sleep(60)
+        await loop.settle()
+        conn_left = len(wd.server.connections)
+        out.update({"t_block": t_block, "connections": conn_left, "ledger": SC.ledger(wd), "server_closed": bool(sp.closing or sp.closed), "close_time": None})
+        out["tasks"] = out["ledger"]["tasks"]
+        raw.vanish()
+        await loop.settle()
+    finally:
+        try:
+            await wd.stop()
+        except Exception:
+            wd.finish()
+    return out
+
+
 def _job(args):
     kind = args[0]
     try:
@@ -209,6 +259,8 @@ def _job(args):
             return simnet.run(_idle_case, *args[1:])
         if kind == "wait":
             return simnet.run(_wait_case, *args[1:])
+        if kind == "ctrl":
+            return simnet.run(_ctrl_unread_case, *args[1:])
         return simnet.run(_stall_case, *args[1:])
     except BaseException as e:  # noqa
         return "HARNESS-ERROR %s: %s" % (type(e).__name__, e)
@@ -225,6 +277,14 @@ def gen(ctx):
         for _ in range(ctx.pick(25, 300)):
             gaps = [rng.choice(grid) for _ in range(rng.randint(1, 7))]
             jobs.append(("idle", idle, gaps, rng.choice([None, None, rng.randint(1, len(gaps))])))
+        # all combinations with the other two timeouts
+        for sock in (None, 2):
+            for wait in (None, 1):
+                jobs.append(("idle", idle, [0.5, 0.5], None, sock, wait))
+                jobs.append(("idle", idle, [2.75, 3.25, 0.5], 2, sock, wait))
+    for sock in (None, 0, 2):
+        for idle in (None, 30):
+            jobs.append(("ctrl", sock, idle, 40))
     for wait in (None, 0, 1, 2.5):
         for verb in ("RETR", "STOR", "LIST", "MLSD"):
             for delta in (None, 0.25, 0.75, 1.0, 1.25, 2.25, 2.5, 2.75, 4.0):
@@ -307,8 +367,20 @@ def _run(ctx, compare=True):
                 res.oracle_failures.append({"input": inp, "what": "%s with wait_future_timeout=%r, data connection after %r s: observed %s (replies %r), expected %s" % (verb, wait, delta, got, codes, want), "signature": sig})
             if t425 is not None and (o["eof"] or o["follow"] != [257]):
                 res.oracle_failures.append({"input": inp, "what": "session not usable after the 425: PWD -> %r" % (o["follow"],), "signature": "C16:session-lost-after-425"})
+            if o.get("retry") is not None and (o["retry"][0] != [150, 226] or o["retry"][1] != b"0123456789" or o.get("retry_pwd") != [257]):
+                res.oracle_failures.append({"input": inp, "what": "after the 425 the same transfer retried with a data connection gave %r, then PWD -> %r" % (o["retry"], o.get("retry_pwd")), "signature": "C16:retry-after-425-broken"})
             lines.append("timers wait %s 0 %s" % ("n" if wait is None else str(ms(wait)), "n" if delta is None else str(ms(delta))))
             expect.append((inp, got.split("@")[0] + ("@" + got.split("@")[1] if "@" in got and got.startswith("425") else "")))
+        elif j[0] == "ctrl":
+            sock, idle = j[1], j[2]
+            if not o["blocked"]:
+                res.count("ctrl_not_blocked")
+                continue
+            held = o["connections"] > 0 or bool(o["tasks"])
+            if sock:
+                if held:
+                    res.oracle_failures.append({"input": inp, "what": "the peer stopped reading the control connection; socket_timeout=%s s, but 60 s later the session is still held (connections=%d, tasks=%r)" % (sock, o["connections"], o["tasks"]), "signature": "C16:control-write-stall-never-released"})
+            continue
         else:
             sock, direction, gaps = j[1], j[2], j[3]
             give = None if o["eof_time"] is None else ms(o["eof_time"] - o["start"])
